@@ -493,7 +493,7 @@ fn run(c: &Case, out: &mut Out) {
                     from_scm: false,
                 }));
                 live.clear();
-                // (fixed in f3ae05e: a re-activated listener serves again, so nothing special is expected afterwards)
+                // (fixed in 09a9442: a re-activated listener serves again, so nothing special is expected afterwards)
                 if !(ok1 && ok2) {
                     out.viol("e2e-bounded", "DeactivateListener / ActivateListener was refused");
                 }
